@@ -390,6 +390,15 @@ EvGuards(e) ==
               G("C12", (e.opened /\ RacedDeletion(W, p.sub)) => ReleasedPromptly(W, p.sub, e.t)) }
       [] e.k = "ret" -> IF e.c \in DOMAIN pend THEN RetGuards(e.c, e) ELSE { G("BIND", FALSE) }
       [] e.k \in {"cancel", "lret"} -> {}
+      [] e.k = "quiet" ->
+            \* C06: at rest, no message sits in the backlog of a live subscription while a
+            \* consumer that can take it is waiting on that subscription
+            { G("C06", \A c \in DOMAIN pend :
+                    LET p == pend[c].e IN
+                    (/\ (p.op = "Pull" /\ ~p.ri) \/ p.op = "StreamOpen"
+                     /\ p.sub \in DOMAIN smap /\ S[smap[p.sub]].st = "live"
+                     /\ smap[p.sub] \in SubLookups(Win(c), p.sub))
+                    => (S[smap[p.sub]].queue = <<>> /\ S[smap[p.sub]].inbox = <<>>)) }
       [] e.k = "hang" ->
             { G("C07", FALSE) } \cup
             (IF e.c \in DOMAIN pend /\ pend[e.c].e.op \in {"StreamOpen", "Pull"}
